@@ -10,6 +10,7 @@ import Sq.Denote
 import SqLemmas.DenoteSound
 import SqLemmas.DenoteComplete
 import SqLemmas.DenoteHalt
+import SqLemmas.DenoteAst
 namespace SqProps.C07Den
 open Sq Sq.Den
 
@@ -100,5 +101,15 @@ theorem eval_call_iff_semantics (w : World) (bs : List Nat) (namesAddr budget : 
   · rintro ⟨f, hf⟩
     obtain ⟨n, hn⟩ := eval_call_sound f w bs namesAddr budget ast o w' hf
     exact ⟨n + 1 + 0, hn 0⟩
+
+/-- **… including AST-supplied names** (`ast_names`: each entry evaluated in turn and bound in the host's mapping, then the
+    program — `evalAst`): the machine started by `initCfg` halts with `done v` / `failed e` in world `w'` if and only if
+    the semantics prescribes `ret v` / `raise e` and `w'`.  This covers every way `SqParser.eval` starts an evaluation. -/
+theorem eval_call_iff_semantics_with_ast_names (w : World) (bs : List Nat) (namesAddr budget : Nat) (ast : Op)
+    (astNames : List (Name × Op)) (o : Out) (w' : World) :
+    (∃ N, run N (initCfg w bs namesAddr budget ast astNames) = { ctl := o.halt, k := [], w := w', budgets := bs ++ [budget] }) ↔
+    (∃ f, evalAst (bs ++ [budget]) f astNames ast w.vms.length
+      { w with vms := w.vms ++ [{ scopes := [namesAddr], ops := 0 }] } = some (o, w')) :=
+  eval_call_iff w bs namesAddr budget ast astNames o w'
 
 end SqProps.C07Den
